@@ -783,6 +783,9 @@ pub(super) async fn generate_block_txs<S: StateRead>(
     profile: &str,
 ) -> Vec<BuiltTx> {
     let mut out = vec![];
+    if profile == "empty" {
+        return out;
+    }
     let mut next_nonce: std::collections::HashMap<usize, u32> = std::collections::HashMap::new();
     let ntx = if profile == "proposals" { rng.gen_range(2..=16) } else { rng.gen_range(0..=10) };
     for _ in 0..ntx {
